@@ -711,6 +711,8 @@ class PDFDocument:
         self._parser = None
         self._cached_objs: Dict[int, Tuple[object, int]] = {}
         self._parsed_objs: Dict[int, Tuple[List[object], int]] = {}
+        # object streams being looked up, to detect one stored in itself
+        self._objstm_stack: List[int] = []
         self._parser = parser
         self._parser.set_document(self)
         self.is_printable = self.is_modifiable = self.is_extractable = True
@@ -857,7 +859,14 @@ class PDFDocument:
                     continue
                 try:
                     if strmid is not None:
-                        stream = stream_value(self.getobj(strmid))
+                        if strmid in self._objstm_stack:
+                            # the object stream is (indirectly) stored in itself
+                            raise PDFSyntaxError("Object stream loop: %r" % strmid)
+                        self._objstm_stack.append(strmid)
+                        try:
+                            stream = stream_value(self.getobj(strmid))
+                        finally:
+                            self._objstm_stack.pop()
                         obj = self._getobj_objstm(stream, index, objid)
                     else:
                         obj = self._getobj_parse(index, objid)
